@@ -729,14 +729,9 @@ rename("C05", "funsor/sum_product.py", "MarkovProduct._alpha_convert")
 rename("C05", "funsor/sum_product.py", "sequential_sum_product")
 
 
-# `if c: A else: B` -> `if not c: B else: A` in the anchor functions (behaviour-preserving)
-def invert(prop, file, qual):
-    V.append(dict(id=f"{prop.lower()}-s-invert-ifs:{qual}", prop=prop, kind="silent", transform=("invert_ifs", file, qual)))
 
 
-for _v in list(V):
-    if _v.get("transform") and _v["transform"][0] == "rename_locals":
-        invert(_v["prop"], _v["transform"][1], _v["transform"][2])
+
 
 fire("c07-unbounded-memo-on-op-rule", "C07", DOMAINS,
      "@find_domain.register(ops.ReductionOp)\ndef _find_domain_reduction(op, domain):", "@find_domain.register(ops.ReductionOp)\n@functools.lru_cache(maxsize=None)\ndef _find_domain_reduction(op, domain):",
@@ -757,15 +752,56 @@ silent("c07-s-reduce-via-locals", "C07", TERMS,
        "        return type(self).__origin__, self._ast_values\n", "        cls = type(self).__origin__\n        args = self._ast_values\n        return cls, args\n")
 
 
+
+
+
+
+
+# ----------------------------------------------------------------------------------------------------------------- C04
+fire("c04-distribute-subs-one-pair-at-a-time", "C04", CNF,
+     "    new_terms = tuple(\n        (\n            Subs(v, tuple((name, sub) for name, sub in subs if name in v.inputs))\n            if any(name in v.inputs for name, sub in subs)\n            else v\n        )\n        for v in arg.terms\n    )\n",
+     "    new_terms = arg.terms\n    for name, sub in subs:\n        new_terms = tuple(\n            Subs(v, ((name, sub),)) if name in v.inputs else v for v in new_terms\n        )\n",
+     "R04.1", "distribute_subs_contraction")
+fire("c04-call-passes-all-keywords", "C04", TERMS,
+     "        for k in self.inputs:\n            if k in kwargs:\n                subs[k] = kwargs[k]\n        return Subs(self, tuple(subs.items()))",
+     "        subs.update(kwargs)\n        return Subs(self, tuple(subs.items()))", "R04.2", "Funsor.__call__")
+fire("c04-subs-meta-keeps-foreign-keys", "C04", TERMS,
+     "            (k, to_funsor(v, arg.inputs[k])) for k, v in subs if k in arg.inputs\n", "            (k, to_funsor(v, arg.inputs.get(k))) for k, v in subs\n", "R04.2", "SubsMeta.__call__")
+fire("c04-subs-init-adds-before-removing", "C04", TERMS,
+     "        for key, value in subs:\n            del inputs[key]\n        for key, value in subs:\n            inputs.update(value.inputs)\n",
+     "        for key, value in subs:\n            inputs.update(value.inputs)\n        for key, value in subs:\n            del inputs[key]\n", "R04.3", "Subs.__init__")
+fire("c04-subs-init-keeps-keys", "C04", TERMS,
+     "        for key, value in subs:\n            del inputs[key]\n        for key, value in subs:\n            inputs.update(value.inputs)\n",
+     "        for key, value in subs:\n            inputs.update(value.inputs)\n", "R04.3", "Subs.__init__")
+silent("c04-s-subs-init-pop", "C04", TERMS,
+       "        for key, value in subs:\n            del inputs[key]\n", "        for key, value in subs:\n            inputs.pop(key)\n")
+silent("c04-s-call-items-loop", "C04", TERMS,
+       "        for k in self.inputs:\n            if k in kwargs:\n                subs[k] = kwargs[k]\n", "        for name in self.inputs:\n            if name in kwargs:\n                subs[name] = kwargs[name]\n")
+rename("C04", TERMS, "Subs.__init__")
+rename("C04", TERMS, "Funsor.__call__")
+rename("C04", TERMS, "SubsMeta.__call__")
+rename("C04", CNF, "distribute_subs_contraction")
+rename("C04", TENSOR, "Tensor.eager_subs")
+V.append(dict(id="c04-s-unparse-package", prop="C04", kind="silent", transform=("unparse_package", "", "")))
+
+
+# ===== derived variants: must stay at the END of this file (they enumerate every rename() variant above) =====
+# `if c: A else: B` -> `if not c: B else: A` in the anchor functions (behaviour-preserving)
+def invert(prop, file, qual):
+    V.append(dict(id=f"{prop.lower()}-s-invert-ifs:{qual}", prop=prop, kind="silent", transform=("invert_ifs", file, qual)))
+
 # `return EXPR` -> `_ret = EXPR; return _ret` in the anchor functions (behaviour-preserving)
 for _v in list(V):
     if _v.get("transform") and _v["transform"][0] == "rename_locals":
         V.append(dict(id=f"{_v['prop'].lower()}-s-return-via-temp:{_v['transform'][2]}", prop=_v["prop"], kind="silent",
                       transform=("return_via_temp", _v["transform"][1], _v["transform"][2])))
 
-
 # `if c: return X` + rest  ->  `if c: return X else: rest` in the anchor functions (behaviour-preserving)
 for _v in list(V):
     if _v.get("transform") and _v["transform"][0] == "rename_locals":
         V.append(dict(id=f"{_v['prop'].lower()}-s-else-after-return:{_v['transform'][2]}", prop=_v["prop"], kind="silent",
                       transform=("else_after_return", _v["transform"][1], _v["transform"][2])))
+
+for _v in list(V):
+    if _v.get("transform") and _v["transform"][0] == "rename_locals":
+        invert(_v["prop"], _v["transform"][1], _v["transform"][2])
